@@ -14,15 +14,15 @@ import (
 )
 
 // methods3: two common verbs (fixed root slots) and two custom ones (slots appended and removed with their last route)
-var methods3 = []string{"GET", "POST", "PURGE", "PUSH"} // PUSH: as long as POST and starting with the same byte
+var methods3 = []string{"GET", "POST", "UNPUSH", "PUSH"} // PUSH: as long as POST and starting with the same byte; UNPUSH: contains PUSH
 
 func init() {
 	register(&Prop{
 		ID: "C02", Level: "exploration",
-		Rule: "one case = a generated history of Handle/HandleRoute/Update/UpdateRoute/Delete/Truncate (direct, in unmanaged and managed transactions ended by commit/abort/error/panic, ~12% invalid operations) over a pattern pool sharing prefixes, wildcards and hostnames across GET/POST/PURGE/PUSH; every call's result and a full observation sweep (Len, Has, Route, Iter.All/Methods/Prefix/Routes) are compared with a sequential map after every step; on three drawn requests Lookup and Reverse of the same reader (router, open transaction) must select the same route, and the parameters Lookup reports, substituted into the selected pattern, must spell the request. Non-trivial: the history contains an effective delete or truncate and at least 3 effective inserts; distinct = hash of the operation sequence.",
+		Rule: "one case = a generated history of Handle/HandleRoute/Update/UpdateRoute/Delete/Truncate (direct, in unmanaged and managed transactions ended by commit/abort/error/panic, ~12% invalid operations) over a pattern pool sharing prefixes, wildcards and hostnames across GET/POST/UNPUSH/PUSH; every call's result and a full observation sweep (Len, Has, Route, Iter.All/Methods/Prefix/Routes) are compared with a sequential map after every step; on three drawn requests Lookup and Reverse of the same reader (router, open transaction) must select the same route, and the parameters Lookup reports, substituted into the selected pattern, must spell the request. Non-trivial: the history contains an effective delete or truncate and at least 3 effective inserts; distinct = hash of the operation sequence.",
 		Run:  runC02, Quick: 48000, Thorough: 9600000,
 		Real: commonReal, Stub: commonStub,
-		Domain: []string{"patterns: <= 6 segments over {a,b,ab,ba,c} with full/mid-segment params and catch-alls, hostnames of <= 3 labels", "methods GET, POST and the custom verbs PURGE, PUSH"},
+		Domain: []string{"patterns: <= 6 segments over {a,b,ab,ba,c} with full/mid-segment params and catch-alls, hostnames of <= 3 labels", "methods GET, POST and the custom verbs UNPUSH, PUSH"},
 	})
 }
 
@@ -139,6 +139,9 @@ func runTxn(w *world.World, pool []*model.Pattern, t *TxnProg, each func(i int, 
 					runtime.Goexit() // the calling goroutine ends inside the transaction (only used on simulator tasks)
 				case "abort":
 					return errInjected // unmanaged: leave; managed: abort via error (explicit abort below for unmanaged)
+				case "selfabort":
+					txn.Abort() // the function settles the managed transaction itself, then reports an error
+					return errInjected
 				}
 			}
 			out := applyFox(w, txn, pool, t.Ops[i])
@@ -146,6 +149,9 @@ func runTxn(w *world.World, pool []*model.Pattern, t *TxnProg, each func(i int, 
 		}
 		if t.EndAt >= len(t.Ops) && t.End != "commit" {
 			switch t.End {
+			case "selfabort":
+				txn.Abort()
+				return errInjected
 			case "panic":
 				panic(injectedPanicValue(t.PanicV, len(t.Ops)))
 			case "goexit":
